@@ -82,6 +82,9 @@ type C04Scn struct {
 	Faults   map[string]string `json:"faults"`
 	Entry    string            `json:"entry"`               // do | plan
 	AllThunk bool              `json:"all_thunk,omitempty"` // every resolver defers its value
+	// Vars: variables of a generated document (pool documents have fixed ones)
+	Vars      map[string]interface{} `json:"vars,omitempty"`
+	Generated bool                   `json:"generated,omitempty"`
 	Order    uint32            `json:"order"`
 	Salt     uint64            `json:"salt"`
 }
@@ -120,6 +123,11 @@ type c04Info struct {
 
 var c04Cache = map[string]*c04Info{}
 
+// generated documents (gendoc.go): their variables travel in the scenario; a
+// generated document whose fault-free run has errors is not judged (probe)
+var c04Generated = map[string]bool{}
+var c04Rejected = map[string]string{}
+
 func namedOf(t string) string {
 	return strings.Trim(t, "[]!")
 }
@@ -151,6 +159,10 @@ func c04Analyse(q string) *c04Info {
 	rc := &ReqCtx{Task: "base", W: w, RootTok: Tok{T: root}}
 	res := graphql.Do(graphql.Params{Schema: w.Schema, RequestString: q, VariableValues: c04Vars[q], Context: WithReq(context.Background(), rc)})
 	if len(res.Errors) > 0 {
+		if c04Generated[q] {
+			c04Rejected[q] = MarshalResult(res)
+			return nil
+		}
 		panic("c04: baseline of " + q + " has errors: " + MarshalResult(res))
 	}
 	var base interface{}
@@ -244,7 +256,17 @@ func (p c04) Gen(seed uint64, enum int, tier string) json.RawMessage {
 	}
 	r := NewRNG(seed)
 	s.Query = c04Queries[r.Intn(len(c04Queries))]
+	if r.Chance(45) {
+		// a generated document instead of a pool document
+		gd := GenQueryDoc(r, c04GenWorld(), 6+r.Intn(30), true)
+		s.Query, s.Vars, s.Generated = gd.Query, gd.Vars, true
+		c04Generated[s.Query] = true
+		c04Vars[s.Query] = gd.Vars
+	}
 	ci := c04Analyse(s.Query)
+	if ci == nil || len(ci.Positions) == 0 {
+		return mustJSON(s) // rejected (Run reports the probe) or nothing to fail
+	}
 	s.Entry = []string{"do", "plan", "cache-norm"}[r.Intn(3)]
 	s.Order = uint32(r.Intn(4))
 	s.Salt = r.Uint64() % 1000
@@ -567,7 +589,25 @@ func (c04) Run(t TestingT, scn json.RawMessage, tape *Tape) *Outcome {
 		return &Outcome{Infra: "bad scenario: " + err.Error()}
 	}
 	o := &Outcome{}
+	if sc.Generated {
+		c04Generated[sc.Query] = true
+		c04Vars[sc.Query] = normaliseJSONInts(sc.Vars).(map[string]interface{})
+		if len(c04Cache) > 4000 {
+			c04Cache = map[string]*c04Info{}
+		}
+	}
 	ci := c04Analyse(sc.Query)
+	if ci == nil {
+		o.Probe("generated-document-rejected")
+		o.TraceHash = "rejected"
+		o.Sample = map[string]interface{}{"scenario": sc, "baseline": c04Rejected[sc.Query]}
+		if !strings.Contains(c04Rejected[sc.Query], `"path"`) {
+			// not a field error of the fault-free run: the generator claims
+			// validity by construction, so this is harness trouble
+			o.Infra = "generated document rejected by parse/validation: " + sc.Query + " => " + c04Rejected[sc.Query]
+		}
+		return o
+	}
 	verifmo.Set(verifmo.Sorted, 0)
 	w := NewWorld("A")
 	verifmo.Set(sc.Order, sc.Salt)
@@ -771,6 +811,9 @@ func (c04) Run(t TestingT, scn json.RawMessage, tape *Tape) *Outcome {
 		}
 		rc.mu.Unlock()
 		keyVars := map[string]interface{}{"no": false, "yes": true} // supplied or defaulted: same values
+		for k, v := range c04Vars[sc.Query] {
+			keyVars[k] = v
+		}
 		if msg := CheckSelectedKeys(doc, "", keyVars, ci.Root, dec.Data, typeAt, w.Possible); msg != "" {
 			o.Violate("C04/unselected-or-missing-key", "%s\n response: %s", msg, raw)
 		}
@@ -852,4 +895,36 @@ func c04UnderDeferred(path string, firedAt []string) bool {
 		}
 	}
 	return false
+}
+
+var c04GenW *World
+
+func c04GenWorld() *World {
+	if c04GenW == nil {
+		c04GenW = NewWorld("A")
+	}
+	return c04GenW
+}
+
+// normaliseJSONInts turns integral float64 values (JSON decoding) back into ints.
+func normaliseJSONInts(v interface{}) interface{} {
+	switch x := v.(type) {
+	case map[string]interface{}:
+		out := map[string]interface{}{}
+		for k, e := range x {
+			out[k] = normaliseJSONInts(e)
+		}
+		return out
+	case []interface{}:
+		out := make([]interface{}, len(x))
+		for i, e := range x {
+			out[i] = normaliseJSONInts(e)
+		}
+		return out
+	case float64:
+		if x == float64(int(x)) {
+			return int(x)
+		}
+	}
+	return v
 }
